@@ -58,7 +58,7 @@ def cases(tier):
 
 def fill(W, td, ms, rel):
     for i, k in enumerate(ms):
-        nm = 'e%d' % i
+        nm = ('e%d', 'e%d.trashinfo.x', '.e%d')[i % 3] % i          # ordinary; '.trashinfo' inside the name; hidden
         pv = ('w/%s' if rel else '/home/u/w/%s') % nm
         date = {'old': '2020-01-01T00:00:00', 'recent': NOW, 'undated': None, 'garbage': 'soon'}.get(k, '2020-01-01T00:00:00')
         payload = {'nopayload': None, 'tree': 'tree', 'link': 'ldir'}.get(k, 'file')
